@@ -645,10 +645,31 @@ func (cmd *Command) printDiagnostics(cs []*lint.Analyzer, diagnostics []diagnost
 			if di.Message != dj.Message {
 				return di.Message < dj.Message
 			}
-			if di.BuildName != dj.BuildName {
-				return di.BuildName < dj.BuildName
+			// The de-duplication below only merges adjacent diagnostics, so
+			// diagnostics with the same descriptor have to sort next to each
+			// other: compare every field of the descriptor before the build
+			// name.
+			if di.Category != dj.Category {
+				return di.Category < dj.Category
 			}
-			return di.Category < dj.Category
+			ei := di.End
+			ej := dj.End
+			if ei.Filename != ej.Filename {
+				return ei.Filename < ej.Filename
+			}
+			if ei.Line != ej.Line {
+				return ei.Line < ej.Line
+			}
+			if ei.Column != ej.Column {
+				return ei.Column < ej.Column
+			}
+			if pi.Offset != pj.Offset {
+				return pi.Offset < pj.Offset
+			}
+			if ei.Offset != ej.Offset {
+				return ei.Offset < ej.Offset
+			}
+			return di.BuildName < dj.BuildName
 		})
 
 		filtered := []diagnostic{
